@@ -142,7 +142,15 @@ fn classify(focus: &str, text: &str) -> Option<(String, String, String)> {
 
 fn single(scenario: &str, focus: &str, seed: u64, wl: &Workload) -> Result<Out, String> {
     let flags = format!("{} -Zmiri-seed={seed}", base_flags(scenario));
-    run_miri(flags.trim(), &wl.args(scenario, focus))
+    let out = run_miri(flags.trim(), &wl.args(scenario, focus))?;
+    // The scenario prints its TAPE line before it touches the code under test. A failed
+    // invocation without it never ran (the crate was being rebuilt, cargo or rustc failed, ...):
+    // that is a harness error, never a finding.
+    if !out.ok && !out.text.lines().any(|l| l.starts_with("TAPE ")) {
+        let why: Vec<&str> = out.text.lines().filter(|l| l.starts_with("error")).take(3).collect();
+        return Err(format!("the Miri execution for seed {seed} did not start: {}", if why.is_empty() { out.text.lines().last().unwrap_or("no output").to_string() } else { why.join(" | ") }));
+    }
+    Ok(out)
 }
 
 #[derive(Clone, Debug)]
